@@ -6,26 +6,31 @@ SPEC = {
     "oracles": [
         {
             "name": "c20append",
-            "quick_args": ["-n", "150", "-steps", "30"],
-            "thorough_args": ["-n", "2500", "-steps", "36"],
+            # -n: random walks; -life: directed histories message shape x remote decision (reject / accept /
+            # de-duplicate) x COPY/MOVE destination; -names: directed sweeps command x spelling of the recovery name
+            "quick_args": ["-n", "100", "-steps", "30", "-life", "60", "-names", "45"],
+            "thorough_args": ["-n", "1800", "-steps", "36", "-life", "700", "-names", "500"],
             "timeout": 3000,
         },
     ],
-    "rule": "evaluations = commands run against the real server (each followed by a read-back of every mailbox and compared with the Lean model's prediction); non-trivial = commands on which the Lean judge judge-c20-append had something of C20 to decide (an APPEND answered OK or NO, a command naming the recovery mailbox, a LIST while it is non-empty, a COPY/MOVE out of it)",
+    "rule": "evaluations = commands run against the real server (each followed by a read-back of every mailbox and compared with the Lean model's prediction); non-trivial = commands on which the Lean judge judge-c20-append had something of C20 to decide (an APPEND answered OK or NO, a command naming the recovery mailbox in any spelling - letter case, literal, modified UTF-7, separators and blanks around it, inferior / superior paths -, a LIST while it is non-empty, a COPY/MOVE out of it); three kinds of sequences: random walks, directed histories message shape (14 MIME shapes, 5 of them unhashable) x remote decision (reject / accept / de-duplicate) x COPY/MOVE destination (the mailbox holding the duplicate / another / a fresh one), directed sweeps command x spelling; plus one comparison per MIME shape of rfc822.GetMessageHash with the model's leavesHashOk",
     "trusted_base": [
         "Lean 4.33.0 kernel; axioms limited to propext, Classical.choice, Quot.sound (audited per theorem)",
         "hand-written model GluonModel/Model/Append.lean of handleAppend / Mailbox.Append / AppendRegular / the actions behind APPEND, COPY, MOVE, EXPUNGE / MessageHashesMap / the recovery-mailbox rules of State.Create, Delete, Rename, List / stateDBWrite as rollback / newUser's rebuild of the hash map; tied to the real server by the oracle c20append (differential testing of every answer and every mailbox content after every command, not proof)",
-        "facts translator harness/facts_append.go (go/ast): recovery mailbox constants, header fields GetMessageHash reads, call order in actionCreateRecoveredMessage / actionMoveMessagesOutOfRecoveryMailbox / actionRemoveMessagesFromMailboxUnchecked, name guards, errors exempt from the recovery insert (theorem source_facts_today)",
-        "harness/conn_fail.go: connector.Dummy wrapped so that CreateMessage / AddMessagesToMailbox / RemoveMessagesFromMailbox / MoveMessages fail on a script, and an on-disk store whose Set fails on a script; harness/o_append.go decodes fetched literals byte for byte",
+        "facts translator harness/facts_append.go (go/ast): recovery mailbox constants, header fields GetMessageHash reads, call order in actionCreateRecoveredMessage / actionMoveMessagesOutOfRecoveryMailbox / actionRemoveMessagesFromMailboxUnchecked, name guards, errors exempt from the recovery insert, control-flow skeleton (if-conditions, loops, continue/break, assignments to a parameter) of actionCreateRecoveredMessage / actionImportRecoveredMessage / actionCopy-/MoveMessagesOutOfRecoveryMailbox / actionAddRecoveredMessagesToMailbox / State.Delete (theorem source_facts_today)",
+        "harness/conn_fail.go: connector.Dummy wrapped so that CreateMessage / AddMessagesToMailbox / RemoveMessagesFromMailbox / MoveMessages fail on a script (fixed in advance, or planned step by step by the directed scenarios of harness/o_append_directed.go; the replay file holds the script that was played), and an on-disk store whose Set fails on a script; harness/o_append.go decodes fetched literals byte for byte",
+        "the table of MIME shapes (harness/o_append.go c20Shapes <-> Driver/DAppend.lean shapeLeaves): which leaves a generated literal has as hashBody sees them; compared per shape with rfc822.GetMessageHash / rfcvalidation / imap.NewParsedMessage on the literal (c20ShapeTie)",
     ],
     "assumptions": [
         "rfc822.GetMessageHash is an arbitrary function H of the fields it reads (Subject, addresses of From/To/Cc/Reply-To/In-Reply-To, per leaf part MIME type + parameters except boundary, Content-Disposition, decoded trimmed body); everything else of a literal (Date, Message-Id, other headers) is invisible to it",
         "the connector echoes the literal on CreateMessage (connector.Dummy does) and reports an existing remote ID only for a byte-identical literal; a failing connector call has no effect on the remote",
         "freshly generated UUIDs (remote message IDs, imap.NewInternalMessageID) do not collide with IDs in use (hypothesis IdsFresh of append_ok_exact and recovery_*_out_can)",
         "one session whose snapshot equals the database (true after each completed command of a single session); connector-initiated updates are not delivered during a sequence (the harness never flushes the Dummy's queue and does not Sync on restart)",
-        "mailbox names: ASCII case folding only; flat names; INBOX treated as an ordinary name; RENAME INBOX and hierarchical CREATE/RENAME are outside the model (answered `unsupported`, never generated)",
+        "mailbox names: ASCII case folding only; flat names; INBOX treated as an ordinary name; RENAME INBOX and hierarchical CREATE/RENAME are outside the model (answered `unsupported`: the comparison with the model stops at such a step, the judge - which needs no model - goes on); a name sent with a modified-UTF-7 escape for an ASCII character is refused by the session layer's decoder (NO) and modelled as such in the driver, SELECT / EXAMINE / STATUS / SUBSCRIBE / UNSUBSCRIBE are not commands of the model (state unchanged, answer left open)",
+        "imap.NewParsedMessage accepts every literal rfcvalidation accepts (no literal was found that separates them: `Lit.parseOk = false` is never exercised on the real server)",
+        "the message a de-duplicating import lands on carries the same bytes (recovery_*_out_arrives speak about internal IDs; that the ID the connector recognised holds the same bytes is checked on the real server by the judge, by message key)",
         "the second transaction of stateDBWrite (queueing the state updates) does not fail; database faults other than the scripted failure of the message insert are out of scope (C08)",
         "store garbage collection at restart (deleteAllMessagesMarkedDeleted, cleanupStaleStoreData) is not modelled: it only removes literals no mailbox refers to",
     ],
-    "explanation": "Lean theorems over the APPEND/recovery model for every failure script and every command sequence (reachable states); witnesses for every named hypothesis, replayed on the real server (corpus/C20); the model is tied to the real server over TCP with a failing connector and store; facts regenerated from the source",
+    "explanation": "Lean theorems over the APPEND/recovery model for every failure script and every command sequence (reachable states), for hashable and unhashable literals, de-duplicated or not; witnesses for every named hypothesis, replayed on the real server (corpus/C20); the model is tied to the real server over TCP with a failing connector and store (random walks and directed histories); facts regenerated from the source (constants, call order, guards, control-flow skeleton of the recovery path)",
 }
